@@ -31,7 +31,7 @@ void *__real_malloc(size_t);
 void *__real_calloc(size_t, size_t);
 void *__real_realloc(void *, size_t);
 void __real_free(void *);
-extern int psv_env_threads, psv_affinity_fails, psv_ncpus;
+extern int psv_env_threads, psv_affinity_fails, psv_ncpus, psv_env_form, psv_env_style, psv_env_other;
 }
 
 using namespace psv;
@@ -955,6 +955,20 @@ struct SchedHarness : Harness {
 			static const int nc[] = {1, 2, 4, 8, 16};
 			plan["ncpus"] = Json(cpus.chance(0.5) ? 0 : nc[cpus.below(5)]);
 		}
+		{
+			// form of the simulated environment (own stream): which of GOTO_NUM_THREADS / OMP_NUM_THREADS exist
+			Rng ev(runseed, "environment");
+			static const char *forms[] = {"both", "goto", "omp", "both_differ", "neither"};
+			Json e = Json::object();
+			int f = ev.chance(0.4) ? 0 : 1 + (int)ev.below(4);
+			e["form"] = Json(forms[f]);
+			e["style"] = Json((long long)(ev.chance(0.7) ? 0 : ev.below(4)));
+			static const int others[] = {1, 2, 3, 7, 64};
+			e["other"] = Json(others[ev.below(5)]);
+			plan["env"] = e;
+			// without either variable the worker count is the machine's CPU count
+			if (f == 4) plan["ncpus"] = Json(workers);
+		}
 		plan["schedule"] = gen_sched(knob, workers, est_len);
 		plan["cross_workers"] = Json(depth == "fit" && knob.chance(0.25));
 		return plan;
@@ -1005,6 +1019,13 @@ struct SchedHarness : Harness {
 		psv_env_threads = workers;
 		psv_affinity_fails = plan.getb("affinity_fails") ? 1 : 0;
 		psv_ncpus = (int)plan.geti("ncpus", 0);
+		{
+			std::string f = plan["env"].gets("form", "both");
+			psv_env_form = f == "goto" ? 1 : f == "omp" ? 2 : f == "both_differ" ? 3 : f == "neither" ? 4 : 0;
+			psv_env_style = (int)plan["env"].geti("style", 0);
+			psv_env_other = (int)plan["env"].geti("other", 1);
+			ctx.count("env:" + f);
+		}
 		Race::enable(true);
 		ctx.crumb("exec|%s|workers=%d", depth.c_str(), workers);
 		ctx.log.ev("plan depth=%s workers=%d policy=%s", depth.c_str(), workers, sc.policy.c_str());
@@ -1326,7 +1347,8 @@ struct SchedHarness : Harness {
 		if (plan["problem"].has("n") && plan["problem"].geti("n") > 1) { Json c = plan; c["problem"]["n"] = Json(plan["problem"].geti("n") - 1); out.push_back(c); }
 		if (plan["problem"].geti("extra") > 0) { Json c = plan; c["problem"]["extra"] = Json(0); out.push_back(c); }
 		if (plan.getb("affinity_fails")) { Json c = plan; c["affinity_fails"] = Json(false); out.push_back(c); }
-		if (plan.geti("ncpus", 0) > 0) { Json c = plan; c["ncpus"] = Json(0); out.push_back(c); }
+		if (plan.has("env") && (plan["env"].gets("form", "both") != "both" || plan["env"].geti("style", 0))) { Json c = plan; c.erase("env"); out.push_back(c); }
+		if (plan.geti("ncpus", 0) > 0 && plan["env"].gets("form", "both") != "neither") { Json c = plan; c["ncpus"] = Json(0); out.push_back(c); }
 		if (plan.getb("cross_workers")) { Json c = plan; c["cross_workers"] = Json(false); out.push_back(c); }
 		// 3. explicit schedule: truncate, drop spurious wake-ups, remove preemptions
 		if (plan["schedule"].gets("policy") == "explicit") {
